@@ -14,30 +14,27 @@ Local Open Scope N_scope.
 Section Root.
   Variable H : list N → list N.
 
-  (* root of the storage trie holding exactly the non-zero slots of [m] *)
-  Definition storage_root (m : gmap slot word) : option (list N) :=
-    let kvs := omap (λ kv : slot * word, if kv.2 =? 0 then None else Some (slot_key H kv.1, slot_val kv.2))
-                    (map_to_list m) in
+  (* the root of the trie built from scratch by a list of (key, value) updates *)
+  Definition build (kvs : list (list N * list N)) : option (list N) :=
     match t_update_seq NEmpty kvs with
     | COk t => match t_hash H t with COk h => Some h | CErr _ => None end
     | CErr _ => None
     end.
 
+  (* root of the storage trie holding exactly the non-zero slots of [m] *)
+  Definition stor_kvs (m : gmap slot word) : list (list N * list N) :=
+    map (λ kv : slot * word, (slot_key H kv.1, slot_val kv.2))
+        (List.filter (λ kv : slot * word, negb (kv.2 =? 0)) (map_to_list m)).
+  Definition storage_root (m : gmap slot word) : option (list N) := build (stor_kvs m).
+
   (* root of the account trie over [(address, account, storage)] *)
-  Definition accounts_root (l : list (addr * acct * gmap slot word)) : option (list N) :=
-    let kvs := omap (λ e : addr * acct * gmap slot word,
-                       match storage_root e.2 with
-                       | Some sr => Some (Some (addr_key H e.1.1, acct_rlp H e.1.2 sr))
-                       | None => Some None
-                       end) l in
-    match mapM id kvs with
+  Definition acct_kv (e : addr * acct * gmap slot word) : option (list N * list N) :=
+    match storage_root e.2 with
+    | Some sr => Some (addr_key H e.1.1, acct_rlp H e.1.2 sr)
     | None => None
-    | Some kvs =>
-        match t_update_seq NEmpty kvs with
-        | COk t => match t_hash H t with COk h => Some h | CErr _ => None end
-        | CErr _ => None
-        end
     end.
+  Definition accounts_root (l : list (addr * acct * gmap slot word)) : option (list N) :=
+    match mapM acct_kv l with Some kvs => build kvs | None => None end.
 
   (* the whole storage an object stands for: dirty over pending over (unless the
      account was destructed in this block) the committed pre-state *)
